@@ -632,6 +632,7 @@ def _sym_match(self: SymInterp, s: ast.Match, st: Sym) -> Outcome:
     """match as an isinstance chain: class patterns decide `isinstance(subject, Cls)`, keyword sub-patterns bind
     `subject.attr`, `case _ as e` binds the subject; a case is entered only if the earlier class tests failed."""
     out = Outcome()
+    st = self._walrus(s.subject, st)
     subj = self.text(s.subject, st)
     cur = st
     exhaustive = False
@@ -641,6 +642,13 @@ def _sym_match(self: SymInterp, s: ast.Match, st: Sym) -> Outcome:
         if alts is not None and case.guard is None and all(isinstance(a, ast.MatchClass) and not a.patterns and not a.kwd_patterns for a in alts):
             test = canon_isinstance(subj, [ast.unparse(a.cls) for a in alts])
             out.absorb(self.block(case.body, [cur.cond(test, True)]))
+            cur = cur.cond(test, False)
+        elif isinstance(p, ast.MatchAs) and isinstance(p.pattern, ast.MatchClass) and not p.pattern.patterns and not p.pattern.kwd_patterns and case.guard is None:
+            test = f"isinstance({subj}, {ast.unparse(p.pattern.cls)})"
+            inside = cur.cond(test, True)
+            if p.name:
+                inside = inside.set(p.name, subj)
+            out.absorb(self.block(case.body, [inside]))
             cur = cur.cond(test, False)
         elif isinstance(p, ast.MatchClass) and not p.patterns and case.guard is None:
             test = f"isinstance({subj}, {ast.unparse(p.cls)})"
